@@ -56,6 +56,7 @@ type Machine struct {
 	loopMax  int
 	observes []observed
 	lastSite string
+	expects  []string
 }
 
 type observed struct {
